@@ -70,9 +70,11 @@ class ZeroLinearOperator(LinearOperator):
         new_m = self.size(-2)
         if rhs_size_ind == -1:
             *batch_shape, m = rhs.shape
+            batch_shape = torch.broadcast_shapes(torch.Size(batch_shape), self.batch_shape)
             output_shape = (*batch_shape, new_m)
         else:
             *batch_shape, m, n = rhs.shape
+            batch_shape = torch.broadcast_shapes(torch.Size(batch_shape), self.batch_shape)
             output_shape = (*batch_shape, new_m, n)
         return torch.zeros(*output_shape, dtype=rhs.dtype, device=rhs.device)
 
@@ -114,9 +116,11 @@ class ZeroLinearOperator(LinearOperator):
         new_m = self.size(-1)
         if rhs_size_ind == -1:
             *batch_shape, m = rhs.shape
+            batch_shape = torch.broadcast_shapes(torch.Size(batch_shape), self.batch_shape)
             output_shape = (*batch_shape, new_m)
         else:
             *batch_shape, m, n = rhs.shape
+            batch_shape = torch.broadcast_shapes(torch.Size(batch_shape), self.batch_shape)
             output_shape = (*batch_shape, new_m, n)
         return torch.zeros(*output_shape, dtype=rhs.dtype, device=rhs.device)
 
@@ -202,9 +206,11 @@ class ZeroLinearOperator(LinearOperator):
         new_m = self.size(-2)
         if tensor_size_ind == -1:
             *batch_shape, m = other.shape
+            batch_shape = torch.broadcast_shapes(torch.Size(batch_shape), self.batch_shape)
             output_shape = (*batch_shape, new_m)
         else:
             *batch_shape, m, n = other.shape
+            batch_shape = torch.broadcast_shapes(torch.Size(batch_shape), self.batch_shape)
             output_shape = (*batch_shape, new_m, n)
         return ZeroLinearOperator(*output_shape, dtype=other.dtype, device=other.device)
 
